@@ -108,7 +108,7 @@ def expected_trace(ctor_term, has_ss_term_true, has_ss_term_false, m, X, sample_
 
 
 # ------------------------------------------------------------------------------------------------
-def run(ctx):
+def _run(ctx):
     quick = ctx.tier == 'quick'
     status = univ.generate(ctx)
     for name, err in status.items():
@@ -702,3 +702,16 @@ def search(ctx, quick):
     within = {k: [bool(r[-1]) for r in v if isinstance(r[-1], bool)] for k, v in dkw.items() if k in MLE}
     ctx.extra['dkw_scipy_mle_within_band'] = {k: f'{sum(v)}/{len(v)}' for k, v in within.items()}
     ctx.extra['witness_search_hits'] = sorted(set(hits))
+
+
+def run(ctx):
+    """the check proper, then the history / edge-value oracle added after a missed seeded change (always)"""
+    from .. import extra_oracles
+    try:
+        _run(ctx)
+    finally:
+        try:
+            extra_oracles.truncated_zero_bound(ctx)
+        except Exception as ex:
+            ctx.obligation('oracle:extra:raised', False, 'correspondence', repr(ex))
+            ctx.violation('oracle:extra:raised:' + type(ex).__name__, 'extra oracle raised ' + repr(ex), {'repro': '# see tools/vf/extra_oracles.py'})
